@@ -3,10 +3,18 @@ import NutilsVerif.Core.Proto
 # C15 — matrix assembly from CSR / COO / block data  (model; no Mathlib)
 
 Mirrors `nutils.matrix.assemble_csr` (validation), `nutils.matrix._numpy.assemble`
-(last-write-wins scatter into a dense array), `numeric.compress_indices`,
-`assemble_block_csr`, and the dense semantics of the `NumpyMatrix` operations.
-Values are integers (the harness only feeds integer-valued float/complex data, so
-NumPy's float arithmetic is exact on them).
+(last-write-wins scatter into a dense array), `numeric.compress_indices`, `assemble_coo`,
+`assemble_block_csr` (both the single-block fast path and the generic row-by-row path, the skipping of
+empty blocks, the assertions), `NumpyMatrix.export` (`coo`, `csr`), `Matrix.diagonal`, `Matrix.rowsupp`
+and the dense semantics of the `NumpyMatrix` operations.
+Values are integers (the harness only feeds integer-valued float/complex data, so NumPy's float
+arithmetic is exact on them; complex matrices are handled as a pair of integer matrices).
+
+Every definition is either
+* **code model** — a transcription of what the Python code does (named in the doc comment), or
+* **specification** — what the property demands (`validB`, `denseSum`, `searchsortedAll`, `blockDense`,
+  `dDiag`, `dRowsupp`, …).
+`Props/C15.lean` proves the unbounded statements that relate the two.
 -/
 namespace NutilsVerif.C15
 
@@ -15,9 +23,9 @@ structure CSR where
   rowptr : List Int
   colidx : List Int
   ncols  : Nat
-deriving Repr, BEq
+deriving Repr, BEq, DecidableEq
 
-/-! ## validation exactly as `assemble_csr` performs it -/
+/-! ## validation exactly as `assemble_csr` performs it (code model) -/
 
 def monotone : List Int → Bool
   | a :: b :: t => decide (a ≤ b) && monotone (b :: t)
@@ -30,12 +38,14 @@ def rowptrOK (rp : List Int) (nnz : Nat) : Bool :=
   | [] => false
   | a :: _ => a == 0 && monotone rp && rp.getLast? == some (nnz : Int)
 
-/-- `len(colidx) == rowptr[-1] and all(0 <= colidx) and all(colidx < ncols)` -/
+/-- `len(colidx) == rowptr[-1] and all(colidx >= 0) and all(colidx < ncols)` -/
 def colRangeOK (ci : List Int) (ncols : Nat) : Bool :=
   ci.all fun c => decide (0 ≤ c) && decide (c < (ncols : Int))
 
 /-- the flag vector `colidx_is_increasing` of length `len(colidx)+1`:
-interior entries compare neighbours strictly, entries at positions listed in `rowptr` are forced true -/
+interior entries compare neighbours strictly (`numpy.greater(colidx[1:], colidx[:-1], out=flags[1:-1])`),
+entries at positions listed in `rowptr` are forced true (`flags[rowptr] = True`); the two end entries are
+uninitialised memory in the code and therefore only true when `rowptr` lists them -/
 def orderFlags (rp ci : List Int) : List Bool :=
   (List.range (ci.length + 1)).map fun (k : Nat) =>
     rp.contains (k : Int) ||
@@ -58,9 +68,12 @@ def strictInc : List Int → Bool
   | a :: b :: t => decide (a < b) && strictInc (b :: t)
   | _ => true
 
+/-- `[l[a:b] for a, b in zip(rp, rp[1:])]` -/
+def slicesBy {α : Type} (rp : List Int) (l : List α) : List (List α) :=
+  (List.zip rp rp.tail).map fun (a, b) => (l.drop a.toNat).take (b - a).toNat
+
 /-- the column indices of each row, `colidx[rowptr[r]:rowptr[r+1]]` -/
-def rowSlices (rp ci : List Int) : List (List Int) :=
-  (List.zip rp rp.tail).map fun (a, b) => (ci.drop a.toNat).take (b - a).toNat
+def rowSlices (rp ci : List Int) : List (List Int) := slicesBy rp ci
 
 /-- Specification of "defines a matrix unambiguously": row pointers partition `0..nnz`, every column
 index is inside `[0,ncols)`, and within each row the column indices strictly increase. -/
@@ -70,29 +83,33 @@ def validB (m : CSR) : Bool :=
 
 /-! ## dense meaning -/
 
+abbrev Dense := List (List Int)
+
 def nrows (m : CSR) : Nat := m.rowptr.length - 1
 
-/-- `numpy.concatenate([numpy.full(n, i) for i, n in enumerate(numpy.diff(rowptr))])` -/
+/-- `numpy.repeat(numpy.arange(len(rowptr)-1), numpy.diff(rowptr))` (code model) -/
 def rowidxOf (rp : List Int) : List Nat :=
   let diffs := List.zipWith (fun a b => (b - a).toNat) rp rp.tail
   (diffs.zipIdx.map fun (n, i) => List.replicate n i).flatten
 
+/-- the stored entries as (row, column, value) in storage order -/
 def entries (m : CSR) : List (Nat × Int × Int) :=
   List.zip (rowidxOf m.rowptr) (List.zip m.colidx m.values)
 
 /-- specification semantics: entry (i,j) is the sum of all listed values at (i,j) -/
-def denseSum (m : CSR) : List (List Int) :=
+def denseSum (m : CSR) : Dense :=
   (List.range (nrows m)).map fun (i : Nat) => (List.range m.ncols).map fun (j : Nat) =>
-    ((entries m).filter fun e => e.1 == i && e.2.1 == (j : Int)).foldl (fun s e => s + e.2.2) 0
+    (((entries m).filter fun e => e.1 == i && e.2.1 == (j : Int)).map (·.2.2)).sum
 
-/-- implementation semantics of the numpy backend: `array[rowidx, colidx] = data`, last write wins -/
-def denseAssign (m : CSR) : List (List Int) :=
+/-- implementation semantics of the numpy backend: `array[rowidx, colidx] = data`, last write wins (code model) -/
+def denseAssign (m : CSR) : Dense :=
   (List.range (nrows m)).map fun (i : Nat) => (List.range m.ncols).map fun (j : Nat) =>
     match ((entries m).filter fun e => e.1 == i && e.2.1 == (j : Int)).getLast? with
     | some e => e.2.2
     | none => 0
 
-def assemble (m : CSR) : Except Reject (List (List Int)) := do
+/-- `assemble_csr` with the numpy backend (code model) -/
+def assemble (m : CSR) : Except Reject Dense := do
   validate m
   return denseAssign m
 
@@ -101,7 +118,7 @@ def assemble (m : CSR) : Except Reject (List (List Int)) := do
 inductive CErr | bounds | notMonotone
 deriving Repr, BEq, DecidableEq
 
-/-- `numeric.compress_indices(indices, length)` -/
+/-- `numeric.compress_indices(indices, length)` (code model) -/
 def compressIndices (idx : List Int) (length : Nat) : Except CErr (List Int) :=
   match idx with
   | [] => .ok (List.replicate (length+1) 0)
@@ -113,28 +130,105 @@ def compressIndices (idx : List Int) (length : Nat) : Except CErr (List Int) :=
       if step.any (· < 0) then .error .notMonotone
       else .ok ((step.zipIdx.map fun (s, i) => List.replicate s.toNat (i : Int)).flatten)
 
-/-- the documented meaning: `indices.searchsorted(arange(length+1))` (left) -/
+/-- the documented meaning: `indices.searchsorted(arange(length+1))` (left) for a sorted vector (specification) -/
 def searchsortedAll (idx : List Int) (length : Nat) : List Int :=
   (List.range (length+1)).map fun (i : Nat) => ((idx.filter (· < (i : Int))).length : Int)
 
-/-! ## export and operations on the dense representation (numpy backend) -/
+/-- `0 <= i < n` for every index (specification of "in bounds") -/
+def inRange (idx : List Int) (n : Nat) : Bool := idx.all fun i => decide (0 ≤ i) && decide (i < (n : Int))
 
-abbrev Dense := List (List Int)
+/-- outcome of `assemble_coo`: `compress_indices` may raise `ValueError`, `assemble_csr` may raise `MatrixError` -/
+inductive CooOut
+  | valueError (e : CErr)
+  | reject (r : Reject)
+  | ok (d : Dense)
+deriving Repr, BEq, DecidableEq
 
+/-- `assemble_coo(values, rowidx, nrows, colidx, ncols) = assemble_csr(values, compress_indices(rowidx, nrows), colidx, ncols)` -/
+def assembleCOO (values rowidx : List Int) (nr : Nat) (colidx : List Int) (nc : Nat) : CooOut :=
+  match compressIndices rowidx nr with
+  | .error e => .valueError e
+  | .ok rp =>
+    match assemble { values := values, rowptr := rp, colidx := colidx, ncols := nc } with
+    | .error r => .reject r
+    | .ok d => .ok d
+
+/-- specification of unambiguous COO data: row indices sorted and in range, and the CSR triple they induce is valid -/
+def cooValidB (values rowidx : List Int) (nr : Nat) (colidx : List Int) (nc : Nat) : Bool :=
+  monotone rowidx && inRange rowidx nr &&
+  validB { values := values, rowptr := searchsortedAll rowidx nr, colidx := colidx, ncols := nc }
+
+/-! ## row view of CSR data -/
+
+/-- one matrix row as (column, value) pairs -/
+abbrev Row := List (Int × Int)
+
+/-- running end positions of consecutive chunks, starting after position `s` -/
+def ptrTail {α : Type} (s : Int) : List (List α) → List Int
+  | [] => []
+  | r :: t => (s + (r.length : Int)) :: ptrTail (s + (r.length : Int)) t
+
+def ptrOf {α : Type} (L : List (List α)) : List Int := 0 :: ptrTail 0 L
+
+/-- the CSR triple that stores the given rows -/
+def ofRows (L : List Row) (nc : Nat) : CSR :=
+  { values := (L.map (·.map (·.2))).flatten
+    colidx := (L.map (·.map (·.1))).flatten
+    rowptr := ptrOf L
+    ncols := nc }
+
+/-- the rows of a CSR triple -/
+def toRows (m : CSR) : List Row :=
+  List.zipWith List.zip (slicesBy m.rowptr m.colidx) (slicesBy m.rowptr m.values)
+
+/-- dense meaning of one row: entry j is the sum of the listed values with column j (specification) -/
+def rowDense (r : Row) (nc : Nat) : List Int :=
+  (List.range nc).map fun (j : Nat) => ((r.filter fun p => p.1 == (j : Int)).map (·.2)).sum
+
+/-! ## export (numpy backend, code model) -/
+
+/-- the non-zero entries of a dense row as (column, value) -/
+def nzRow (row : List Int) : Row :=
+  (row.zipIdx.filter fun p => p.1 != 0).map fun p => ((p.2 : Int), p.1)
+
+/-- `export('coo')`: `ij = core.nonzero(); return core[ij], ij` — row-major non-zero entries -/
+def exportCOO (d : Dense) : List (Nat × Int × Int) :=
+  (d.zipIdx.map fun (p : List Int × Nat) => (nzRow p.1).map fun (q : Int × Int) => (p.2, q.1, q.2)).flatten
+
+/-- `export('csr')`: `rows, cols = core.nonzero(); return core[rows, cols], cols, rows.searchsorted(arange(nrows+1))` -/
 def exportCSR (d : Dense) (ncols : Nat) : CSR :=
-  let rows := d.map fun row => (row.zipIdx.filter fun (v, _) => v != 0)
-  { values := (rows.map fun r => r.map (·.1)).flatten
-    colidx := (rows.map fun r => r.map fun (_, j) => (j : Int)).flatten
-    rowptr := (rows.foldl (fun (acc : List Int × Int) r => (acc.1 ++ [acc.2 + r.length], acc.2 + r.length)) ([0], 0)).1
+  let coo := exportCOO d
+  { values := coo.map (·.2.2)
+    colidx := coo.map (·.2.1)
+    rowptr := searchsortedAll (coo.map fun e => (e.1 : Int)) d.length
     ncols := ncols }
+
+/-- `numpy.searchsorted(l, x)` (left) for sorted `l` -/
+def searchsortedLeft (l : List Int) (x : Int) : Nat := (l.filter (· < x)).length
+
+/-- `Matrix.diagonal` on the CSR export (code model): per row, `searchsorted` of the row number in the row's
+column slice, take the value there if the column matches, else 0 -/
+def csrDiagonal (m : CSR) : List Int :=
+  (List.range (nrows m)).map fun (irow : Nat) =>
+    let lo := (m.rowptr.getD irow 0).toNat
+    let hi := (m.rowptr.getD (irow+1) 0).toNat
+    let icols := (m.colidx.drop lo).take (hi - lo)
+    let idiag := searchsortedLeft icols (irow : Int)
+    if idiag < icols.length && icols.getD idiag 0 == (irow : Int) then m.values.getD (lo + idiag) 0 else 0
+
+/-- `Matrix.rowsupp(tol)` of the base class (code model): `supp[row[abs(data) > tol]] = True` on the COO export -/
+def cooRowsupp (coo : List (Nat × Int × Int)) (nr : Nat) (tol : Nat) : List Bool :=
+  (List.range nr).map fun (i : Nat) => coo.any fun e => e.1 == i && decide (tol < e.2.2.natAbs)
+
+/-! ## operations on the dense representation (specification = numpy backend) -/
 
 def dAdd (a b : Dense) : Dense := List.zipWith (List.zipWith (· + ·)) a b
 def dSub (a b : Dense) : Dense := List.zipWith (List.zipWith (· - ·)) a b
 def dNeg (a : Dense) : Dense := a.map (·.map (- ·))
 def dScale (a : Dense) (s : Int) : Dense := a.map (·.map (· * s))
 def dT (a : Dense) (ncols : Nat) : Dense := (List.range ncols).map fun j => a.map (·.getD j 0)
-def dMatVec (a : Dense) (x : List Int) : List Int := a.map fun row => (List.zipWith (· * ·) row x).foldl (· + ·) 0
-def dRowsupp (a : Dense) : List Bool := a.map (·.any (· != 0))
+def dMatVec (a : Dense) (x : List Int) : List Int := a.map fun row => (List.zipWith (· * ·) row x).sum
+def dRowsupp (a : Dense) (tol : Nat := 0) : List Bool := a.map (·.any fun v => decide (tol < v.natAbs))
 def dDiag (a : Dense) : List Int := a.zipIdx.map fun (row, i) => row.getD i 0
 def dSub2 (a : Dense) (rows cols : List Bool) : Dense :=
   ((a.zip rows).filter (·.2)).map fun (row, _) => ((row.zip cols).filter (·.2)).map (·.1)
@@ -146,24 +240,127 @@ structure Block where
   rowptr : List Int
   colidx : List Int
   ncols  : Nat
+  /-- dtype tag (0 = float, 1 = complex, …); only compared for equality -/
+  dt     : Nat := 0
+deriving Repr, BEq
 
-/-- `assemble_block_csr` merging (the generic row-by-row path and the single-block fast path give the
-same CSR triple; the model uses the generic path for all rows) -/
+def Block.csr (b : Block) : CSR := { values := b.values, rowptr := b.rowptr, colidx := b.colidx, ncols := b.ncols }
+
+/-- Python index normalisation for slicing a sequence of length `n` -/
+def pyIdx (n : Nat) (i : Int) : Nat := if i < 0 then (i + (n : Int)).toNat else min i.toNat n
+
+/-- Python `l[i:j]` -/
+def pySlice {α : Type} (l : List α) (i j : Int) : List α :=
+  (l.drop (pyIdx l.length i)).take (pyIdx l.length j - pyIdx l.length i)
+
+inductive BErr | rowSizes | dtype | colSizes | noBlocks
+deriving Repr, BEq, DecidableEq
+
+/-- a non-empty block of the current block row with its column offset applied: (values, rowptr, colidx + col_offset) -/
+abbrev BData := List Int × List Int × List Int
+
+/-- the first loop over a block row: assertions, skipping of empty blocks, column offsets.
+Returns the `block_data` list and the final `col_offset`. -/
+def collectRow (nr : Nat) (dt : Nat) : List Block → Nat → Except BErr (List BData × Nat)
+  | [], off => .ok ([], off)
+  | b :: t, off =>
+    if b.rowptr.length - 1 != nr || b.rowptr.length == 0 then .error .rowSizes
+    else if b.dt != dt then .error .dtype
+    else do
+      let (rest, off') ← collectRow nr dt t (off + b.ncols)
+      if b.values.length != 0 then
+        return ((b.values, b.rowptr, b.colidx.map (· + (off : Int))) :: rest, off')
+      else return (rest, off')
+
+/-- generic path, one matrix row: the value and column slices of all blocks, and the advance of `ptr` -/
+def genRow (data : List BData) (irow : Nat) : List Int × List Int × Int :=
+  data.foldl (fun (acc : List Int × List Int × Int) (d : BData) =>
+    let i := d.2.1.getD irow 0
+    let j := d.2.1.getD (irow+1) 0
+    (acc.1 ++ pySlice d.1 i j, acc.2.1 ++ pySlice d.2.2 i j, acc.2.2 + (j - i))) ([], [], 0)
+
+/-- accumulated output lists of `assemble_block_csr`: `values`, `rowptr`, `colidx` (concatenated) and whether
+anything was appended to the Python list `values` -/
+structure Acc where
+  values : List Int := []
+  rowptr : List Int := [0]
+  colidx : List Int := []
+  any    : Bool := false
+deriving Repr, BEq
+
+def Acc.ptr (a : Acc) : Int := a.rowptr.getLast?.getD 0
+
+/-- generic path over all `nr` matrix rows of a block row -/
+def genericRows (data : List BData) (nr : Nat) (a : Acc) : Acc :=
+  (List.range nr).foldl (fun (a : Acc) (irow : Nat) =>
+    let (vs, cs, dp) := genRow data irow
+    { values := a.values ++ vs, colidx := a.colidx ++ cs, rowptr := a.rowptr ++ [a.ptr + dp],
+      any := a.any || !data.isEmpty }) a
+
+/-- single-block fast path: `values.append(v); rowptr.extend(rp[1:] + ptr); colidx.append(ci)` -/
+def fastRows (d : BData) (a : Acc) : Acc :=
+  { values := a.values ++ d.1, colidx := a.colidx ++ d.2.2, rowptr := a.rowptr ++ d.2.1.tail.map (· + a.ptr), any := true }
+
+/-- one block row of `assemble_block_csr` (code model) -/
+def blockRowStep (ncols : Nat) (dt : Nat) (a : Acc) (brow : List Block) : Except BErr Acc :=
+  match brow with
+  | [] => .error .noBlocks
+  | b0 :: _ => do
+    let nr := b0.rowptr.length - 1
+    let (data, off) ← collectRow nr dt brow 0
+    if off != ncols then .error .colSizes
+    else match data with
+      | [d] => return fastRows d a
+      | _ => return genericRows data nr a
+
+/-- `assemble_block_csr` up to the final call (code model): the merged triple, or `none` with the shape when the
+`if not values` shortcut to `empty(...)` is taken -/
+def blockMergeCode (blocks : List (List Block)) : Except BErr (CSR × Bool) :=
+  match blocks with
+  | [] => .error .noBlocks
+  | [] :: _ => .error .noBlocks
+  | (b0 :: r0) :: _ => do
+    let ncols := ((b0 :: r0).map (·.ncols)).sum
+    let a ← blocks.foldlM (blockRowStep ncols b0.dt) {}
+    return ({ values := a.values, rowptr := a.rowptr, colidx := a.colidx, ncols := ncols }, a.any)
+
+/-- `empty((nrows, ncols))` -/
+def emptyCSR (nr nc : Nat) : CSR := { values := [], rowptr := List.replicate (nr+1) 0, colidx := [], ncols := nc }
+
+/-- full `assemble_block_csr` with the numpy backend -/
+def assembleBlock (blocks : List (List Block)) : Except BErr (Except Reject Dense) := do
+  let (m, any) ← blockMergeCode blocks
+  if any then return assemble m
+  else return assemble (emptyCSR (m.rowptr.length - 1) m.ncols)
+
+/-- the matrix rows of one block row: row `i` is the concatenation of the blocks' rows `i`, columns shifted by
+the widths of the blocks to the left (specification-level merge, no fast path, empty blocks not special) -/
+def mergeBlockRow : List (List Row × Nat) → Nat → List Row
+  | [], nr => List.replicate nr []
+  | (L, w) :: t, nr =>
+    List.zipWith (fun (r : Row) (r' : Row) => r ++ r'.map fun p => (p.1 + (w : Int), p.2)) L (mergeBlockRow t nr)
+
+/-- `blockMerge`: the CSR triple of the block matrix, defined on the row view of the blocks -/
 def blockMerge (blocks : List (List Block)) : CSR :=
-  let ncols := ((blocks.head?.getD []).map (·.ncols)).foldl (· + ·) 0
-  let rows : List (List (List (Int × Int))) := blocks.map fun brow =>
-    let nr := (brow.head?.map (·.rowptr.length - 1)).getD 0
-    (List.range nr).map fun i =>
-      (brow.foldl (fun (acc : List (Int × Int) × Nat) b =>
-        let lo := (b.rowptr.getD i 0).toNat
-        let hi := (b.rowptr.getD (i+1) 0).toNat
-        let cs := (b.colidx.drop lo).take (hi - lo)
-        let vs := (b.values.drop lo).take (hi - lo)
-        (acc.1 ++ List.zip (cs.map (· + (acc.2 : Int))) vs, acc.2 + b.ncols)) ([], 0)).1
-  let flat := rows.flatten
-  { values := (flat.map (·.map (·.2))).flatten
-    colidx := (flat.map (·.map (·.1))).flatten
-    rowptr := (flat.foldl (fun (acc : List Int × Int) r => (acc.1 ++ [acc.2 + r.length], acc.2 + r.length)) ([0], 0)).1
-    ncols := ncols }
+  let ncols := ((blocks.head?.getD []).map (·.ncols)).sum
+  ofRows (blocks.map fun brow =>
+    mergeBlockRow (brow.map fun b => (toRows b.csr, b.ncols)) ((brow.head?.map fun b => nrows b.csr).getD 0)).flatten ncols
+
+/-- horizontal concatenation of dense matrices with `nr` rows each -/
+def hcat : List Dense → Nat → Dense
+  | [], nr => List.replicate nr []
+  | d :: t, nr => List.zipWith (· ++ ·) d (hcat t nr)
+
+/-- the block matrix of the blocks' dense meanings (specification) -/
+def blockDense (blocks : List (List Block)) : Dense :=
+  (blocks.map fun brow => hcat (brow.map fun b => denseSum b.csr) ((brow.head?.map fun b => nrows b.csr).getD 0)).flatten
+
+/-- well-formed block structure: every block is a valid CSR triple, blocks in a block row have the same number
+of rows, every block row is non-empty and has the same total width -/
+def blocksOK (blocks : List (List Block)) : Bool :=
+  let ncols := ((blocks.head?.getD []).map (·.ncols)).sum
+  !blocks.isEmpty && blocks.all fun brow =>
+    !brow.isEmpty && (brow.map (·.ncols)).sum == ncols &&
+    brow.all fun b => validB b.csr && nrows b.csr == (brow.head?.map fun b => nrows b.csr).getD 0
 
 end NutilsVerif.C15
